@@ -927,6 +927,8 @@ pub enum ArgvKind {
     Raw,
     Cluster,
     Empty,
+    /// hundreds of items: one word of a sentence repeated
+    Long,
 }
 
 pub fn help_tokens(o: &Opts) -> Vec<Tok> {
@@ -962,12 +964,13 @@ pub fn all_spellings(n: &Named) -> Vec<Tok> {
 }
 
 pub fn argv(r: &mut Rng, o: &Opts) -> (ArgvKind, Vec<Tok>) {
-    let kind = match r.below(16) {
-        0..=5 => ArgvKind::Sentence,
-        6..=11 => ArgvKind::Mutated,
-        12..=13 => ArgvKind::Raw,
-        14 => ArgvKind::Cluster,
-        _ => ArgvKind::Empty,
+    let kind = match r.below(34) {
+        0..=11 => ArgvKind::Sentence,
+        12..=23 => ArgvKind::Mutated,
+        24..=27 => ArgvKind::Raw,
+        28..=29 => ArgvKind::Cluster,
+        30..=31 => ArgvKind::Empty,
+        _ => ArgvKind::Long,
     };
     let v = match kind {
         ArgvKind::Empty => vec![],
@@ -983,6 +986,20 @@ pub fn argv(r: &mut Rng, o: &Opts) -> (ArgvKind, Vec<Tok>) {
             s
         }
         ArgvKind::Sentence => base_sentence(r, o, false),
+        ArgvKind::Long => {
+            let mut s = base_sentence(r, o, false);
+            let word = if s.is_empty() || r.chance(1, 4) {
+                r.pick(&[t("word"), t("-v"), t("--alpha"), t("1"), t("")][..]).clone()
+            } else {
+                s[r.below(s.len())].clone()
+            };
+            let at = r.below(s.len() + 1);
+            let n = r.range(50, 400);
+            for _ in 0..n {
+                s.insert(at, word.clone());
+            }
+            return (kind, s);
+        }
         ArgvKind::Mutated => {
             let hostile = r.chance(1, 2);
             let mut s = base_sentence(r, o, hostile);
